@@ -1027,6 +1027,33 @@ def read_returns(eng: Engine, ctx: Ctx, rid: str, model: ReaderModel | None = No
         ctx.bad(rid, f.qualname, norm(post[0].node), expected="return (raw, parsed) of loop-carried variables", found=show(rv)[:80], **eng.loc(f, post[0].node))
         return n
     test = info.get("test")
+    if test is not None and is_const(test) and bool(test[1]):
+        # `while True:` left by `break` once a frame has been assembled (the result variables are returned after the loop)
+        ends = [(k, st) for k, st in iteration_ends(info)]
+        nbrk = 0
+        for kind, st in ends:
+            from ..symeval import _ite_under
+
+            # alternatives the path condition of this end excludes are not values it can leave with
+            cases = []
+            for conj in st.dnf or ((),):
+                vals = [_ite_under(st.env.get(nm, ("undef", nm)), conj) for nm in names]
+                for g, ab in _joint_leaves(vals):
+                    if not any((c, not p) in conj for c, p in g) and (g, ab) not in cases:
+                        cases.append((g, ab))
+            for g, (a, b) in cases:
+                n += 1
+                frame = a == ("proj", call, 0) and b == ("proj", call, 1)
+                if kind == "break":
+                    nbrk += 1
+                    ctx.check(frame, rid, f.qualname, f"iteration end (break) that leaves the loop" + (f" under {guard_text(g)[:60]}" if g else ""), expected="returned variables = (raw, parsed) of the frame assembler",
+                              found=f"{names[0]} = {show(a)[:50]}, {names[1]} = {show(b)[:50]}", **loc)
+                elif a == ("proj", call, 0) or b == ("proj", call, 1):
+                    ctx.bad(rid, f.qualname, f"iteration end ({kind}) after a frame was assembled" + (f" under {guard_text(g)[:60]}" if g else ""), expected="the loop is left (break or return) with the assembled pair",
+                            found="the loop continues and the frame is discarded", **loc)
+        ctx.check(nbrk >= 1, rid, f.qualname, "a frame can be returned", expected="a break after the frame assembler's call", found=f"{nbrk} break(s)", **loc)
+        ctx.instance("iteration ends examined", len(ends), 5)
+        return n
     cond_vars = [v for v in info["assigned"] if test is not None and mentions(test, lambda s, v=v: s == ("loop", lid, v))]
     if len(cond_vars) != 1 or test != ("loop", lid, cond_vars[0]):
         ctx.undecided(rid, f.qualname, "loop condition", detail=f"loop condition {show(test) if test else '?'} is not a single loop-carried flag", **loc)
@@ -1468,8 +1495,10 @@ def loop_continuation(eng: Engine, ctx: Ctx, rid: str, model: ReaderModel):
                   "__next__ raises StopIteration iff both elements of read()'s result are None and otherwise returns that result")
     rd = model.read
     info = model.loop
-    brk = [k for k, st in info.get("ends", []) if k == "break"]
-    ctx.check(not brk, rid, rd.qualname, "no break in the reader loop", expected="0", found=str(len(brk)), **eng.loc(rd, info["node"]))
+    # a break is a legitimate exit only on the path that has just assembled a frame (`while True: ...; frame = assemble(); break`)
+    asm_guard = set(model.asm_calls[0].guards) if model.asm_calls else None
+    brk = [k for k, st in info.get("ends", []) if k == "break" and not (asm_guard is not None and asm_guard <= set(st.guards) and model.asm_calls[0].seq < st.seq)]
+    ctx.check(not brk, rid, rd.qualname, "no break in the reader loop", expected="0 (other than the exit with an assembled frame)", found=str(len(brk)), **eng.loc(rd, info["node"]))
     handlers = [n for n in walk_no_nested(rd.node) if isinstance(n, ast.ExceptHandler)]
     lib = [h for h in handlers if h.type is not None and "RTCM" in norm(h.type)]
     ctx.check(len(lib) == 1, rid, rd.qualname, "library-exception handler", expected="one handler for the library's exception classes", found=str(len(lib)), **eng.loc(rd, rd.node))
@@ -1697,7 +1726,11 @@ def receiver_reports_close(eng: Engine, ctx: Ctx, rid: str):
 
     rets = [e for e in sv.effects if e.kind == "return" and e.handler is None and any(empty_lit(c, p) for c, p in e.guards)]
     ok = len(rets) >= 1 and all(e.term == ("const", False) for e in rets)
-    stores_before = [e for e in sv.effects if rets and e.seq < rets[0].seq and e.kind in ("store", "aug", "setitem")]
+    # stores on the path to the return (a store in the other branch of the emptiness test is not before it)
+    from ..symeval import neg_lit
+
+    on_path = lambda e, r: not any((c, not p) in r.guards or neg_lit((c, p)) in r.guards for c, p in e.guards)  # noqa: E731
+    stores_before = [e for e in sv.effects if rets and e.kind in ("store", "aug", "setitem") and any(e.seq < r.seq and on_path(e, r) for r in rets)]
     ctx.check(ok and not stores_before, rid, rv.qualname, "closed socket detected on the raw recv() result", expected="`if len(data) == 0: return False` on the value recv() returned, before any store",
               found=(f"{len(rets)} such return(s)" + (f", {len(stores_before)} store(s) before it" if stores_before else "")) if rets else
               "no `return False` guarded by the emptiness of recv()'s own result: " + "; ".join(guard_text(e.guards)[:80] for e in sv.effects if e.kind == "return" and e.term == ("const", False) and e.handler is None),
